@@ -35,10 +35,15 @@ RULE = ("L1 (differential CLI runs): regenerable scenarios (kind, seed) -> input
         "--ped --use-ped-samples --distrust-genotypes with changed-genotype and recombination lists), genotype (plain, "
         "--ped), haplotag (linked and --ignore-linked-read, --output-threads 1..4), haplotagphase, stats (--tsv, "
         "--block-list, --gtf), compare (--tsv-pairwise/--tsv-multiway/--longest-block-tsv/--switch-error-bed, with and "
-        "without --ignore-sample-name), split, unphase. 'polyploid': tri/tetraploid samples, several read islands, "
+        "without --ignore-sample-name), split, unphase; each job family also gets per-scenario options that move a divisor, "
+        "threshold or cutoff (--internal-downsampling, --max-coverage, --gt-qual-threshold, --recombrate, --default-gq, "
+        "--linked-read-distance-cutoff, --gap-threshold, --cut-poly, -B/--min-overlap, --only-snvs, --only-largest-block); "
+        "every second diploid scenario of the thorough tier has deep noisy reads. 'polyploid': tri/tetraploid samples, several read islands, "
         "polyphase --threads 1..4. Targeted inputs for the order dependences suspected from reading (F7): "
         "'shared-barcode' (two samples sharing a BX barcode), 'linked-stress' (read clouds whose phase set is a tie), "
-        "'undeclared-info' (INFO keys missing from the VCF header), 'ped-changes' (trio with wrong genotypes in all members, "
+        "'undeclared-info' (INFO keys missing from the VCF header), 'ped-coverage' (trio and quartet with ~110 noisy reads per "
+        "sample with mixed base qualities; genotype --ped --max-coverage and phase --ped --internal-downsampling swept over "
+        "budgets that are and are not divisible by the family size: 4,5,7,8,16,17 / 5,7,9), 'ped-changes' (trio with wrong genotypes in all members, "
         "--distrust-genotypes with and without --use-ped-samples). Each job runs under >= 5 configurations "
         "(hash seeds 0,1,2,3,random; thread counts 1..4; one exact repetition of the baseline); every output file is "
         "canonicalised (command-line header removed) and all runs must give the same record list. One case = one "
@@ -182,7 +187,7 @@ def scenario_plan(ctx, rng):
     nd = ctx.n(1, 9)
     for k in range(nd):
         plan.append(("diploid", rng.randrange(10 ** 9), {"extra_samples": rng.choice([0, 1, 1, 2]),
-                                                          "nchrom": rng.choice([2, 2, 3])}))
+                                                          "nchrom": rng.choice([2, 2, 3]), "deep": k % 2 == 1}))
     for k in range(ctx.n(1, 6)):
         plan.append(("polyploid", rng.randrange(10 ** 9), {"ploidy": rng.choice([3, 3, 4]) if k else 3,
                                                             "nsamples": rng.choice([1, 2]) if k else 2,
@@ -191,6 +196,16 @@ def scenario_plan(ctx, rng):
         plan.append(("shared-barcode", rng.randrange(10 ** 9), {"nsamples": 2 if k == 0 else rng.choice([2, 3, 4])}))
     for k in range(ctx.n(1, 3)):
         plan.append(("linked-stress", rng.randrange(10 ** 9), {"groups": 300, "group_size": 4}))
+    # deep noisy pedigree data x coverage budgets that are / are not divisible by the family size
+    plan.append(("ped-coverage", rng.randrange(10 ** 9), {"children": 1, "coverages": [4, 5, 7, 8, 16, 17],
+                                                          "phase_coverages": [5, 7]}))
+    plan.append(("ped-coverage", rng.randrange(10 ** 9), {"children": 2, "coverages": [5, 7, 9], "phase_coverages": [7]}))
+    for k in range(ctx.n(0, 4)):
+        ch = rng.choice([1, 1, 2])
+        plan.append(("ped-coverage", rng.randrange(10 ** 9),
+                     {"children": ch, "reads": rng.choice([60, 110, 160]), "error_rate": rng.choice([0.01, 0.03, 0.06]),
+                      "coverages": [4, 5, 7, 8, 16, 17] if ch == 1 else [5, 6, 7, 9, 10, 11],
+                      "phase_coverages": [4, 5, 7, 8] if ch == 1 else [5, 7, 9]}))
     for k in range(ctx.n(1, 3)):
         plan.append(("ped-changes", rng.randrange(10 ** 9), {}))
     for k in range(ctx.n(1, 3)):
@@ -210,7 +225,7 @@ def differential(ctx, plan, only_job=None, cfg_override=None, label="run"):
             jobs = [j for j in jobs if j.name == only_job]
         entry = []
         for job in jobs:
-            cfgs = cfg_override or job_configs(job, n_extra=0 if ctx.quick else 1)
+            cfgs = cfg_override or job_configs(job, n_extra=1 if (job.feat.get("deep") or not ctx.quick) else 0)
             entry.append((job, cfgs))
             for ci, cfg in enumerate(cfgs):
                 tasks.append((si, job, ci, cfg, os.path.join(d, "out", job.name, f"c{ci}")))
